@@ -191,6 +191,7 @@ def run(prog, rep):
             rep.check(bool(st_nodes) and not late, "ENF-1", "%s.%s setter: nothing after the store can raise" % (cname, prop), "ok",
                       "after storing the cardinality the setter can still fail: %s" % late[:3], setter.where)
     enf2_rule(prog, rep)
+    init_cardinalities_rule(prog, rep)
     from ..report import import_verdicts
     import_verdicts(prog, rep, "C02", ("LOOP-1",), "LOOP-1",
                     "the dictionary reader builds the keyword arguments of every Section / Property from the keys of that element alone: a container that "
@@ -269,3 +270,37 @@ def enf2_rule(prog, rep, rule="ENF-2"):
                       "are reported when the cardinality of an ancestor is set" % (e.func.short, [t for t, p in guards][:4]), where(e.func, e.raw),
                       witness="a sub-Section with a violated cardinality; assign any cardinality to its parent")
     rep.floor(rule, n, 1, "issue prints in the Section re-validation helpers")
+
+
+def init_cardinalities_rule(prog, rep, rule="INIT-1"):
+    """the constructors hand every cardinality they are given to its setter"""
+    from ..cfg import build_cfg
+    from ..logic import reach_avoiding, branch_edge_entails
+    rep.rule(rule, "BaseSection.__init__ / BaseProperty.__init__: for each cardinality parameter, every normal path through the constructor either "
+                   "assigns it through the setter (self.<x>_cardinality = <parameter>) or crosses a branch edge that knows the parameter itself to be "
+                   "unset - never a path that skips it because of another argument (an `elif` after the test of a different cardinality): the "
+                   "readers build every object with all its attributes in one constructor call")
+    n = 0
+    for cname, fields in sorted(FIELDS.items()):
+        init = prog.cls(cname).lookup_method("__init__")
+        if init is None:
+            raise AnalysisError("%s.__init__ vanished" % cname)
+        g = build_cfg(init)
+        me = init.params[0]
+        for field, (prop, helper, rulefn, kind) in sorted(fields.items()):
+            if prop not in init.params:
+                rep.fail(rule, "%s.__init__|%s" % (cname, prop), "the constructor has no parameter %s" % prop, init.where)
+                continue
+            n += 1
+            stores = set(x.id for x in g.nodes if x.kind == "stmt" and isinstance(x.ast, ast.Assign)
+                         and any(unparse(t) in ("%s.%s" % (me, prop),) for t in x.ast.targets) and unparse(x.ast.value) == prop)
+            unset = branch_edge_entails(lambda lf, prop=prop: "P" if (isinstance(lf, ast.Name) and lf.id == prop) else
+                                        "N" if (isinstance(lf, ast.Compare) and unparse(lf) == "%s is None" % prop) else None,
+                                        lambda a: (not a.get("P", True)) or a.get("N", False), ["P", "N"])
+            skipped = any(reach_avoiding(g, g.entry, p, lambda s0, k0, d0: d0.id in stores or unset(s0, k0, d0), skip_kinds=("exc",))
+                          for k0, p in g.exit.pred if k0 != "exc")
+            rep.check(bool(stores) and not skipped, rule, "%s.__init__ passes %s to its setter" % (cname, prop), "on every path (or the parameter is unset)",
+                      "%s.__init__ can finish without assigning %s although the caller gave one: a Section / Property created with several "
+                      "attributes at once (every reader does that) loses it" % (cname, prop), init.where,
+                      witness="Section(sec_cardinality=(1, 2), prop_cardinality=(0, 1)).prop_cardinality is None; the same after any load")
+    rep.floor(rule, n, 3, "cardinality parameters of the constructors")
